@@ -60,6 +60,8 @@ def run(repo, res, tier):
     from .. import effects as _eff
     _eff.rule_memo(repo, res)
     _eff.rule_shared_class_state(repo, res)
+    # a classification table kept as a one-shot iterator classifies differently from the second call on
+    _eff.rule_one_shot_iterators(repo, res)
     from .. import hookrules as _hk
     _hk.rule_token_init(repo, res)
     an = langrules.analyse(repo)
